@@ -322,15 +322,17 @@ class SessionManager:
 
         tcp_header = None
         udp_header = None
+        # a session holds the peer's port as src_port and the own port as dst_port: an answer goes own port -> peer's port
+        own_port, peer_port = (dst_port, src_port) if session_id else (dst_port, dst_port)
         if ip_protocol == PROTOCOL_LOOKUP["TCP"]:
             tcp_header = TCPHeader(
-                src_port=dst_port,
-                dst_port=dst_port,
+                src_port=own_port,
+                dst_port=peer_port,
             )
         elif ip_protocol == PROTOCOL_LOOKUP["UDP"]:
             udp_header = UDPHeader(
-                src_port=dst_port,
-                dst_port=dst_port,
+                src_port=own_port,
+                dst_port=peer_port,
             )
         # TODO: Only create IP packet if not ARP
         # ip_packet = None
